@@ -21,7 +21,8 @@ VARIABLES c
 
 NLc == "\n"
 TABc == "\t"
-FlatAlphabet == {"x", "S", "s", "r", "e", "n", "1", "0", ".", " ", NLc, TABc, "'", "\"", "(", ")", "-", "_", ",", "<", "=", "~", "`", "!", "?", ";", "+", "&", "*", "/"}
+FlatAlphabet == {"x", "S", "s", "r", "e", "n", "1", "0", ".", " ", NLc, TABc, "'", "\"", "(", ")", "-", "_", ",", "<", "=", "~", "`", "!", "?", ";", "+", "&", "*", "/",
+                 "\\", "\f", "|", "#", "@", "\r", "^"}         \* backslash, control character, U+3000, emoji, one half, CR, capital E-acute
 
 Ctxs == {
   [n |-> "gap",     pre |-> "say 1",           post |-> NLc \o "say 2" \o NLc],
